@@ -40,7 +40,26 @@ def cli(mod, args, cwd):
                           capture_output=True, text=True, timeout=300)
 
 
+import contextlib
+
+
+@contextlib.contextmanager
+def reused(d):
+    """the SAME working directory (same absolute path, same file names) emptied before the next program: a chain must not depend on
+    what an earlier chain of the same process left under these names (path-keyed caches, stale parses)"""
+    import shutil
+    for fn in os.listdir(d):
+        p_ = os.path.join(d, fn)
+        shutil.rmtree(p_) if os.path.isdir(p_) else os.remove(p_)
+    yield d
+
+
 def run(st, tier, seed):
+    with core.scratch("pepper_c06shared_") as shared:
+        return run_(st, tier, seed, shared)
+
+
+def run_(st, tier, seed, shared):
     res = Result("C06")
     res.rule = ("accepted programs from the shared generator (components and systems to depth 3, unused sequences, dummy strands, "
                 "zero-length domains, all 15 codes, satisfiable pairings) x both layouts x a random assignment satisfying the arrays; "
@@ -66,7 +85,9 @@ def run(st, tier, seed):
             continue
         res.evaluations += 1
         inp = {"files": b.texts, "entry": b.entry, "includes": b.includes, "struct_orient": struct_orient}
-        with core.scratch("pepper_c06_") as d:
+        share = (i % 2 == 0)     # every other program runs where the previous one of these ran
+        res.count("working-directory:" + ("reused-path" if share else "fresh"))
+        with (reused(shared) if share else core.scratch("pepper_c06_")) as d:
             try:
                 out = pipeline.run_pipeline(b, rng, d, struct_orient=struct_orient)
             except pipeline.Stage as e:
